@@ -426,6 +426,21 @@ def c04_family(tier):
             sc = timely(scn(f'{topo_name}-slowstart/k{k}/S{S}', fs()), quiet=S + 800, horizon=k * 260 + S + 1200)
             out.append(sc)
 
+    # two consumers pausing one after the other, the second one a non-prefetching (low latency) consumer that kept re-requesting
+    # during the first pause; connection timeout 1000 ms, both pauses shorter than it
+    for ll in [True, False]:
+        for ka in [3, 4, 12]:      # (3: the very frame the waiting consumer had been asking for during the other one's pause)
+            fs = [src(N, required='snk,other', period=20), sink('snk', ['src'], stall(ka, 900)), sink('other', ['src;main>x'], stall(2, 800))]
+            fs[1].setdefault('config', {})['sources_low_latency'] = ll
+            out.append(timely(scn(f'two-pauses/lowlat{int(ll)}/k{ka}', fs, conn_timeout=1000), quiet=3000, horizon=3200))
+
+    # replicated consumers: two live synchronized consumers with the SAME filter id on one publisher, one stalls
+    for k in [2]:
+        fs = [src(N, required='dup', period=20), sink('snk', ['src'], stall(k, 1500)), sink('other', ['src;main>x'])]
+        fs[1].setdefault('config', {})['id'] = 'dup'
+        fs[2].setdefault('config', {})['id'] = 'dup'
+        out.append(timely(scn(f'oneof2-sameid/k{k}', fs), quiet=2300, horizon=3000))
+
     # the stalled consumer also listens to an ephemeral source (listed before / after the synchronized one)
     for order in ['eph-first', 'sync-first']:
         for k in [2]:
@@ -442,7 +457,7 @@ def c04_family(tier):
 
     for s in out:
         s['stall'] = True
-        s['dev_window'] = (0, 2200 if 'slowstart' in s['name'] else 1100)     # deviations are enumerated at every choice point of the first 1100 ms (start-up, stall start, settling)
+        s['dev_window'] = (0, 2200 if 'slowstart' in s['name'] or 'two-pauses' in s['name'] else 1100)     # deviations are enumerated at every choice point of the first 1100 ms (start-up, stall start, settling)
 
     return out
 
